@@ -174,6 +174,9 @@ def run_case(case, ctx):
                                 extra += ["--force-dot-license"]
                             elif r < 0.6:
                                 extra += ["--merge-copyrights"]
+                            elif r < 0.7:
+                                extra = ["-c", "Jane Doe", "-l", "MIT", "--year", "2016", "--year", rng.choice(["2020", "2011", "2016"]),
+                                         "--merge-copyrights"] + rng.choice([[], ["--copyright-prefix", "string-c"], ["-c", "Second Holder"]])
                         double_run(res, ctx, root, f"d{len(res.sigs)}_{res.n}/" + t["fname"], body, extra, t, mode,
                                    f"{t['key']} ({t['short']}) body={bname}", rng, 5 if rng.random() < 0.3 else 2)
                         res.cell(f"style:{t['short']}")
